@@ -582,6 +582,9 @@ class Manager:
         # TODO: Refactor this method.
 
         if event.cancelled:
+            # a cancelled event still counts as one finished effect of
+            # the event(s) whose completion is being tracked
+            self._eventComplete(event)
             return
 
         if event.complete:
@@ -689,6 +692,9 @@ class Manager:
             channels = getattr(event, 'success_channels', event.channels)
             self.fire(event.child('success', event, event.value.value), *channels)
 
+        self._eventComplete(event)
+
+    def _eventComplete(self, event):
         while True:
             # cause attributes indicates interest in completion event
             cause = getattr(event, 'cause', None)
